@@ -11,6 +11,10 @@ Part L: shipped .order files: for every sample of the shipped patch corpus, dele
 Part G: `annet gen` end to end (annet.gen.worker through mc/e2e.py) on every corpus sample's new tree, split over two
         generators: the printed configuration holds exactly the generated rows at every depth (with --acl-safe: those
         of the safe generator), and ordering it again changes nothing.
+Part O: Orderer(compile_ordering_text(O), vendor).order_config(t) for ordering rulebooks with nested rules (also as the
+        FIRST rule) x configurations of <= 3 top-level rows (mentioned, unmentioned, negated) whose blocks hold <= 2
+        children in every order: same rows at every depth, idempotent, and the order inside a block is the order the
+        block gets when it is the only row of the configuration (it does not depend on unrelated lines).
 Part C: Orderer.from_hw(hw).order_config(t) for all vendors x forests over rows drawn from that vendor's .order
         file: same rows at every depth, idempotent, rows no rule mentions keep their relative order.
 """
@@ -105,7 +109,8 @@ def ordering_grammar(tier, prefix):
 def bound_text(tier):
     return ("P: %d ordering rulebooks x 2 vendors x all pairs of a %s-config universe; L: 192 corpus samples x every "
             "unchanged top-level row; C: 14 vendors x forests <= %d nodes over <= 8 rows (plain and negated, mentioned and not); "
-            "G: 192 corpus samples x {--acl-safe} through annet.gen.worker end to end"
+            "G: 192 corpus samples x {--acl-safe} through annet.gen.worker end to end; O: 8 nested ordering rulebooks x "
+            "configurations of <= 3 top rows with <= 2 children per block in every order"
             % (len(ordering_grammar(tier, "undo")), "~40" if tier == "quick" else "~120", 4 if tier == "quick" else 5))
 
 
@@ -421,6 +426,76 @@ def run_c(block, ctx):
     ctx.sample({"part": "C", "vendor": v, "rows": rows})
 
 
+def nested_order_rulebooks(prefix):
+    return [
+        [ORule("a", [ORule("c"), ORule("d")]), ORule("b")],
+        [ORule("a", [ORule("d"), ORule("c")]), ORule("b")],
+        [ORule("b"), ORule("a", [ORule("c"), ORule("d")])],
+        [ORule("a", [ORule("c"), ORule("d")])],
+        [ORule("a", [ORule("d"), ORule("%s c" % prefix, order_reverse=True)]), ORule("b")],
+        [ORule("d", glob=True), ORule("a", [ORule("c")]), ORule("b")],
+        [ORule("a", [ORule("c")]), ORule("d", glob=True), ORule("b")],
+        [ORule("b"), ORule("a", [ORule("c", [ORule("d")])])],
+    ]
+
+
+def nested_order_configs(prefix):
+    tops = ["a 1", "a 2", "b 1", "z 1", prefix + " a 9"]
+    kids = ["c 1", "d 1", "z 2", prefix + " c 1"]
+    kid_sets = [list(p) for n in (0, 1, 2) for p in itertools.permutations(kids, n)]
+    for n in (1, 2, 3):
+        for sel in itertools.permutations(tops, n):
+            blocks_ = [r for r in sel if not r.startswith(("b", prefix))]
+            for combo in itertools.product(kid_sets, repeat=len(blocks_)):
+                ch = dict(zip(blocks_, combo))
+                yield [[r, [[k, []] for k in ch.get(r, [])]] for r in sel]
+
+
+def judge_o(vendor, orules, forest, report):
+    from annet.annlib.rbparser.ordering import compile_ordering_text
+    from annet.patching import Orderer
+    text = otext(orules) + "\n"
+    case = {"part": "O", "vendor": vendor, "ordering": [r.to_json() for r in orules], "forest": forest}
+    sig = {"part": "O", "ordering": text.strip().replace("\n", " / ")}
+    try:
+        rb = compile_ordering_text(text, vendor)
+        got = to_list(Orderer(rb, vendor).order_config(env.to_odict(forest)))
+        again = to_list(Orderer(rb, vendor).order_config(env.to_odict(got)))
+    except Exception as e:  # noqa
+        report(dict(sig, kind="exception", exc=type(e).__name__), case, repr(e)[:300])
+        return False
+    if unordered(got) != unordered(forest):
+        report(dict(sig, kind="order_config-changes-rows"), case, "in=%r out=%r" % (forest, got))
+        return False
+    if again != got:
+        report(dict(sig, kind="order_config-not-idempotent"), case, "once=%r twice=%r" % (got, again))
+    for row, ch in forest:
+        if len(ch) < 2:
+            continue
+        alone = to_list(Orderer(rb, vendor).order_config(env.to_odict([[row, ch]])))[0][1]
+        here = next(c for r, c in got if r == row)
+        if alone != here:
+            report(dict(sig, kind="block-order-depends-on-unrelated-rows"), case,
+                   "block %r: alone its children are ordered %r, in %r they come out as %r" % (row, [r for r, _ in alone], forest, [r for r, _ in here]))
+            break
+    return got != forest
+
+
+def run_o(block, ctx):
+    v = block["vendor"]
+    prefix = VENDOR_PREFIX[v]
+    orules = nested_order_rulebooks(prefix)[block["i"]]
+    for forest in nested_order_configs(prefix):
+        if ctx.expired():
+            return
+        changed = judge_o(v, orules, forest, ctx.violation)
+        ctx.evals += 3
+        ctx.states += 1
+        ctx.nontrivial += int(changed)
+        ctx.outcomes["O:%s" % ("reordered" if changed else "kept")] += 1
+    ctx.sample({"part": "O", "ordering": otext(orules)})
+
+
 def check_gen_e2e(sample, acl_safe, report):
     from annet.annlib.tabparser import parse_to_tree
     from annet.patching import Orderer
@@ -493,11 +568,14 @@ def blocks(tier, seed):
         out.append({"part": "C", "vendor": v})
     for i in range(8):
         out.append({"part": "G", "i": i, "of": 8})
+    for v in (list(VENDOR_PREFIX) if tier == "thorough" else ["huawei"]):
+        for i in range(len(nested_order_rulebooks("undo"))):
+            out.append({"part": "O", "vendor": v, "i": i})
     return out
 
 
 def run_block(block, ctx):
-    {"P": run_p, "N": run_n, "L": run_l, "C": run_c, "G": run_g}[block["part"]](block, ctx)
+    {"P": run_p, "N": run_n, "L": run_l, "C": run_c, "G": run_g, "O": run_o}[block["part"]](block, ctx)
 
 
 def replay(case):
@@ -512,6 +590,8 @@ def replay(case):
                 prefix_word_rules(VENDOR_PREFIX[case["vendor"]])[0])
     elif case["part"] == "C":
         judge_c(case["vendor"], case["forest"], rep)
+    elif case["part"] == "O":
+        judge_o(case["vendor"], [ORule.from_json(d) for d in case["ordering"]], case["forest"], rep)
     elif case["part"] == "G":
         check_gen_e2e(next(x for x in corpus.samples() if x["name"] == case["sample"]), case["acl_safe"], rep)
     else:
